@@ -46,6 +46,31 @@ def install_perm(world):
     world.hooks["iteration_order"] = order
 
 
+class _Term:
+    """a symbolic number inside a canonical form: two of them are `equal` for the structural comparison; the relational
+    obligation then demands their semantic equality (collected in `pairs`)"""
+    pairs = []
+
+    def __init__(self, z):
+        self.z = z
+
+    def __eq__(self, other):
+        if isinstance(other, _Term):
+            if not z3.eq(z3.simplify(self.z), z3.simplify(other.z)):
+                _Term.pairs.append((self.z, other.z))
+            return True
+        return False
+
+    def __hash__(self):
+        return 0
+
+    def __lt__(self, other):
+        return str(self.z) < str(other.z)
+
+    def __repr__(self):
+        return str(z3.simplify(self.z))
+
+
 def canon(it, v, V, depth=0):
     """a python structure to compare two outcomes: lists ordered, sets/maps as sorted-by-term collections"""
     if isinstance(v, SElem):
@@ -54,6 +79,8 @@ def canon(it, v, V, depth=0):
         return ("c", v)
     if isinstance(v, SStr):
         return ("s", str(z3.simplify(v.z)))
+    if isinstance(v, (SInt, SFloat, SBool)):
+        return ("n", _Term(v.z))
     if isinstance(v, PList):
         return ("list", tuple(canon(it, x, V, depth + 1) for x in (v.items if v.items is not None else [])))
     if isinstance(v, tuple):
@@ -128,7 +155,11 @@ def units(w):
 
         def post(it, c, o):
             a, b = c["outs"]
-            it.check("post:same-outcome-for-every-pair-of-iteration-orders", a == b, detail=f"{a} vs {b}" if a != b else "")
+            _Term.pairs.clear()
+            same_shape = a == b
+            it.check("post:same-outcome-for-every-pair-of-iteration-orders", same_shape, detail=f"{a} vs {b}" if not same_shape else "")
+            for x, y in list(_Term.pairs):      # numbers computed from the elements (hashes, counts): equal as numbers
+                it.check("post:same-number-for-every-pair-of-iteration-orders", x == y if x.sort() == y.sort() else False, detail=f"{x} vs {y}"[:200])
         return Unit(target, setup, post, name=f"{target}[{name}, {n} elements]", body=body, prepare=install_perm, allowed=allowed,
                     bounded="host containers of <= 3 elements, all pairs of iteration orders", replay=replay_seeds, config={"repr_mode": "inline"})
 
@@ -334,6 +365,7 @@ append(out, [k for k in keys m]); append(out, [v for v in values m]); append(out
 def l = []; for x in s do append(l, x) end; append(out, l);
 def l2 = []; for [k, v] in entries m do append(l2, k + v) end; append(out, l2);
 append(out, [...s]); append(out, list(s)); append(out, list(m)); append(out, set(list(s)));
+append(out, [length(<< <<1, 9>>, <<9, 1>> >>), <<'x', 'y', 'z'>> in << <<'z', 'y', 'x'>> >>, <<< <<2, 10, 18>> => 1>>>[<<18, 10, 2>>], << <<'pear', 'fig'>>, <<'fig', 'pear'>> >>]);
 append(out, string(object(m))); append(out, string(object(<<<'z' => 1, 'b' => 2, 'q' => 3>>>))); append(out, [k for k in keys object(m)]);
 def f(a...) a...; append(out, f(...s));
 def [p, q] = s; append(out, [p, q]);
@@ -423,6 +455,14 @@ def order_consistency():
         if len(texts) != 1:
             fails.append({"id": "bounded:sorted-is-permutation-invariant", "input": "sorted of permutations of [" + ", ".join(sample) + "]",
                           "observed": " | ".join(sorted(texts))[:300], "expected": "one text"})
+    # unequal values with the same text: objects render without their hidden (_) members and in member order, and are ordered
+    # by that text - each pair is its own obligation (listed known findings are matched by it)
+    for ea, eb in (("<*a = 1, _x = 1*>", "<*a = 1, _x = 2*>"), ("<*_p = 1*>", "<*_p = 2*>")):
+        ev += 1
+        a, b = I.interpret(ea, "pool"), I.interpret(eb, "pool")
+        if not (a < b) and not (b < a) and not (a == b):
+            fails.append({"id": f"bounded:order-total-on-unequal-values[objects that differ only in hidden members: {ea} , {eb}]", "input": f"{ea} , {eb}",
+                          "observed": "neither a < b nor b < a nor a == b", "expected": "exactly one (a set of both is enumerated in host hash order)"})
     seen, uniq = set(), []
     for f in fails:
         if f["id"] not in seen:
